@@ -183,7 +183,7 @@ impl CaseKind for Case10 {
 pub fn cfg_for(t: Tier, exact: bool) -> GenCfg {
     use Kind::*;
     let mut cfg = GenCfg::programs(exact);
-    cfg.kinds = vec![(Binary, 26), (Backward, 16), (Unary, 12), (Leaf, 7), (SumReshape, 6), (Matmul, 6), (ClearGrad, 6), (Rebind, 5), (Custom, 5), (CloneH, 4), (DropH, 5), (Flag, 5), (Conv, 2), (IfGt, 2), (Retrack, 4)];
+    cfg.kinds = vec![(Binary, 26), (Backward, 16), (Unary, 12), (Leaf, 7), (SumReshape, 6), (Matmul, 6), (ClearGrad, 6), (Rebind, 5), (Custom, 5), (CloneH, 4), (DropH, 5), (Flag, 5), (Conv, 2), (IfGt, 2), (Retrack, 4), (Refused, 2)];
     cfg.flag_results = true;
     cfg.max_steps = t.pick(24, 90);
     cfg.max_elems = t.pick(32, 100);
